@@ -73,6 +73,9 @@ pub struct Truth {
     pub prose_segments: usize,
     multibyte_before_prose: bool,
     seen_multibyte: bool,
+    /// blanks around a delimiter line / a character reference were rendered
+    pub class_pad: bool,
+    pub class_entity: bool,
 }
 
 impl Truth {
@@ -85,6 +88,8 @@ impl Truth {
             nonprose: vec![],
             ignored_words: vec![],
             prose_segments: 0,
+            class_pad: false,
+            class_entity: false,
             multibyte_before_prose: false,
             seen_multibyte: false,
         }
@@ -341,7 +346,26 @@ fn render_markdown(blocks: &[Block]) -> Truth {
                 };
                 put(&mut t, a);
                 t.raw(" ");
-                match kind % 6 {
+                match kind % 8 {
+                    6 | 7 => {
+                        // character references: markup, not prose (`&nbsp;` is no word "nbsp")
+                        t.class_entity = true;
+                        let e = ["&hellip;", "&nbsp;", "&amp;", "&rarr;", "&mdash;", "&#8212;", "&copy;", "&#x1F600;"][*s as usize % 8];
+                        if kind % 8 == 6 {
+                            // glued to the neighbouring words
+                            t.n -= 1;
+                            t.text.pop();
+                            t.raw(e);
+                            put(&mut t, &b[..b.len().min(2)]);
+                            t.raw(e);
+                        } else {
+                            t.raw(e);
+                            t.raw(" ");
+                            put(&mut t, &b[..b.len().min(2)]);
+                            t.raw(" ");
+                            t.raw(e);
+                        }
+                    }
                     0 => {
                         t.raw("`");
                         t.nonprose(&format!("{} {}", sentinel(*s), ascii_sentinel(*s)));
@@ -464,17 +488,22 @@ fn render_lhs(parts: &[(bool, Vec<Vec<u16>>, u8)], latex: bool) -> Truth {
     let mut t = Truth::new("literate haskell");
     for (code, lines, s) in parts {
         if *code {
+            // blanks around the delimiter lines (trailing spaces, a tab, an indented fence, a
+            // whitespace-only line closing a bird-track block) are legal and invisible
+            let pad = ["", "", "  ", "\t", " "][*s as usize % 5];
+            let lead = ["", "", "", "  "][(*s as usize / 5) % 4];
             if latex {
-                t.raw("\\begin{code}\n");
+                t.raw(&format!("{lead}\\begin{{code}}{pad}\n"));
                 t.nonprose(&format!("{} = \"{}\"", ascii_sentinel(*s), sentinel(*s)));
-                t.raw("\n\\end{code}\n");
+                t.raw(&format!("\n{lead}\\end{{code}}{pad}\n"));
             } else {
-                t.raw("\n> ");
+                t.raw(&format!("{pad}\n> "));
                 t.nonprose(&format!("{} = \"{}\"", ascii_sentinel(*s), sentinel(*s)));
                 t.raw("\n> ");
                 t.nonprose(&format!("{} = 1", ascii_sentinel(s.wrapping_add(1))));
-                t.raw("\n\n");
+                t.raw(&format!("\n{pad}\n"));
             }
+            t.class_pad = t.class_pad || !pad.is_empty() || !lead.is_empty();
         } else {
             for l in lines {
                 t.sentence(l);
@@ -613,6 +642,8 @@ fn test_file_with(spec: &FileSpec, ctx: &mut CaseCtx, server_wrappers: bool) -> 
     ctx.class_if(truth.multibyte_before_prose, "multibyte_nonprose_before_prose");
     ctx.class_if(truth.prose_segments >= 2, "prose_segments>=2");
     ctx.class_if(!truth.ignored_words.is_empty(), "has_ignored_comment");
+    ctx.class_if(truth.class_pad, "blanks_around_delimiter_line");
+    ctx.class_if(truth.class_entity, "character_reference");
     ctx.class_if(server_wrappers, "server_wrappers");
     if truth.multibyte_before_prose && truth.prose_segments >= 2 {
         ctx.nontrivial(&(spec, server_wrappers));
@@ -695,7 +726,7 @@ fn markdown_spec() -> BoxedStrategy<FileSpec> {
         1 => (0u8..6, words(2, 5)).prop_map(|(l, w)| Block::Heading(l, w)),
         1 => (proptest::collection::vec(words(2, 5), 1..4), 0u8..4).prop_map(|(i, k)| Block::List(i, k)),
         1 => words(2, 5).prop_map(Block::Quote),
-        4 => (words(1, 4), 0u8..6, any::<u8>(), words(2, 4)).prop_map(|(a, k, s, b)| Block::Inline(a, k, s, b)),
+        4 => (words(1, 4), 0u8..8, any::<u8>(), words(2, 4)).prop_map(|(a, k, s, b)| Block::Inline(a, k, s, b)),
         1 => (0u8..3, any::<u8>()).prop_map(|(k, s)| Block::Fence(k, s)),
         1 => any::<u8>().prop_map(Block::Indented),
         1 => any::<u8>().prop_map(Block::DisplayMath),
@@ -768,6 +799,8 @@ pub fn run(run: &mut Run) {
     }
     run.require_class("files_with_ground_truth", "multibyte_nonprose_before_prose", (n / 5) as u64);
     run.require_class("files_with_ground_truth", "has_ignored_comment", (n / 10) as u64);
+    run.require_class("files_with_ground_truth", "blanks_around_delimiter_line", (n / 100) as u64);
+    run.require_class("files_with_ground_truth", "character_reference", (n / 200) as u64);
 }
 
 pub fn replay(_check: &str, case: Value, run: &mut Run) -> Result<(), String> {
